@@ -1,3 +1,4 @@
+mod alloctrack;
 mod c01;
 mod c02;
 mod c03;
@@ -28,6 +29,9 @@ mod rng;
 mod tool;
 mod tygen;
 mod util;
+
+#[global_allocator]
+static ALLOC: alloctrack::Tracking = alloctrack::Tracking;
 
 fn main() {
     let args: Vec<String> = std::env::args().skip(1).collect();
@@ -67,6 +71,7 @@ fn main() {
         "C14" => c14::main(&args[1..]),
         "C14-child" => c14::child(&args[1..]),
         "C03-growth-child" => c03::growth_child(),
+        "C12-cpp-child" => c12::cpp_child(&args[1..]),
         "C15" => c15::main(&args[1..]),
         "C16" => c16::main(&args[1..]),
         "C17" => c17::main(&args[1..]),
